@@ -48,6 +48,8 @@ func main() {
 		runChainProfile(profileSpec{name: "burn", gen: genBurnHistory, monitors: func() []Monitor { return []Monitor{&burnMonitor{}, &feeMonitor{}} }}, *seed, *n, *out, *replay, *blocks)
 	case "pnft":
 		runChainProfile(profileSpec{name: "pnft", gen: genPnftHistory, monitors: func() []Monitor { return []Monitor{newPnftMonitor(), &feeMonitor{}} }}, *seed, *n, *out, *replay, *blocks)
+	case "upgradeprobe":
+		runUpgradeProbeChild(*n)
 	case "upgrade":
 		runChainProfile(profileSpec{name: "upgrade", gen: genUpgradeHistory, monitors: func() []Monitor { return nil }, node: true}, *seed, *n, *out, *replay, *blocks)
 	case "sign":
